@@ -106,6 +106,16 @@ class SymEnv:
     def is_real(self, x):
         return isinstance(x, (SReal, float, int)) and not isinstance(x, bool)
 
+    def sos(self, *terms):
+        """lemma hint, self-proving: the sum of the squares of the given terms is non-negative; the engine
+        computes that polynomial itself and records  P >= 0  for interval reasoning"""
+        t = SReal.lift(0)
+        for x in terms:
+            for e in (x._a.flat if isinstance(x, snp.SArray) else ([x] if not isinstance(x, (list, tuple)) else x)):
+                e = SReal.lift(e)
+                t = t + e * e
+        sc.note_nonneg(t)
+
     def _map(self, f, x):
         if isinstance(x, snp.SArray):
             out = _np.empty(x.shape, dtype=object)
